@@ -88,7 +88,7 @@ def cases(tier, seed):
     # automatic class sets (partitions=None): a refused FIRST call must not leave the class set it estimated behind;
     # the refused batch holds small values (bucket of 9), the accepted ones the whole byte range (bucket of 256)
     for name in subjects.PARTITIONED:
-        for kind in ('traces_1d', 'data_float', 'data_int64', 'word_count', 'memory_refused'):
+        for kind in ('traces_1d', 'data_float', 'data_int64', 'word_count', 'memory_refused', 'traces_float16'):
             if kind == 'word_count' and name != 'tbuild':
                 continue
             out.append(dict(gen='dist', subject=name, kind=kind, k=2, auto=True, precision=['float32', 'float64'][k % 2], sub=core.subseed('C16auto', seed, name, kind), must=True))
@@ -282,6 +282,11 @@ def run_dist(case):
                 continue                               # the class set is frozen by the first accepted batch afterwards
             t.count('auto_partition_first_call_rejections')
         btr, bd = _bad_call(kind, traces[src:src + m], bsrc, rng, name)
+        if p == 0 and kind in ('traces_float16', 'data_float', 'data_int64', 'memory_refused') and isinstance(btr, np.ndarray) and btr.ndim == 2 and name not in ('tstatic', 'tdpa') \
+                and rng.random() < 0.5:
+            # a refused FIRST call fixes nothing: the refused batch may well have another trace length than the batches accepted afterwards
+            btr = np.ascontiguousarray(np.concatenate([btr, btr[:, :1]], axis=1))
+            t.count('refused_first_call_with_other_trace_length')
         raised = None
         with _NoMemory(kind == 'memory_refused'):
             try:
